@@ -53,6 +53,8 @@ package zenodb
 //@   at call dyn:onRow assert columns_fresh_per_row: len(callarg1) == 0 || freshInLoop(callarg1)
 //@   capture walkErr Iface = result 0 of call bytetree.Tree).Walk
 //@   ensures memstore_scan_error_returned: captured(walkErr) && walkErr != nil ==> result1 != nil
+//@   capture handedOn Bool = result 0 of call dyn:onRow
+//@   loop 0 backedge assert removed_memstore_row_is_handed_on: len(msColumns) == 0 || captured(handedOn)
 //@   capture scanInstant Int = result 0 of call (*zenodb.table).truncateBefore
 //@   at call zenodb.rowMerger assert one_instant_per_scan: captured(scanInstant) && callarg3 == scanInstant && callarg2 == fs.t.Resolution
 
@@ -61,6 +63,7 @@ package zenodb
 //@ func rowMerger$1
 //@   modifies *
 //@   at call Sequence).Merge assert merges_at_the_scan_instant: callarg4 == truncateBefore && callarg3 == resolution
+//@   at call Sequence).Merge assert merges_with_the_out_fields_expression: callarg2 == outFields[o].Expr && callarg0 == out[o] && callarg1 == seq
 
 // C02: on open, the resume offsets are the per-source maximum (Advance) of the newest readable filestore's header
 // offsets and the offset file's offsets - never the offset file alone when a filestore was selected.
@@ -277,11 +280,13 @@ package zenodb
 //@   at call send:in assert own_offset_per_entry: captured(entryOffset) && callarg0.offset == entryOffset && callarg0.source == 0
 
 // C18: a scan's view is one instant of the table: the filestore it will read and the memstore copy are taken inside the
-// same read-locked section.
+// same read-locked section. C01/C04: a query's scan never asks the filestore to recycle its row buffer nor to hand
+// on raw rows - the keys and columns a query receives are retained by group, sort and the callers' results.
 //@ func (*rowStore).iterate
 //@   modifies *
 //@   capture msCopy Int = result 0 of call (*zenodb.memstore).copy
 //@   at call (*zenodb.memstore).copy assert file_read_in_the_same_section: fs == rs.fileStore
+//@   at call (*zenodb.fileStore).iterate assert query_rows_own_their_bytes: !callarg3 && !callarg4
 //@   at call sync.RWMutex).RUnlock assert memstore_copied_before_unlock: fs != nil || fs == nil ==> (includeMemStore ==> captured(msCopy))
 
 // C17: a coalesced iteration finds its own output column for a field of the union by the field's text (name and
@@ -308,3 +313,9 @@ package zenodb
 //@ func (*DB).queryForRemote$1
 //@   modifies *
 //@   ensures error_left_alone: err == old(err)
+
+// C02: a standalone DB resumes its own WAL from the offset recorded for source 0 - the source under which the local
+// WAL reader records and persists every offset (processWALInserts sends source 0) - whatever the DB's configured ID.
+//@ func (*DB).CreateTable
+//@   modifies *
+//@   at call (*zenodb.table).startWALProcessing assert resumes_from_the_local_source: has(offsetsBySource, 0) ? callarg1 == offsetsBySource[0] : len(callarg1) == 0
